@@ -531,7 +531,12 @@ fn run_history(w: &W, f: &FileModel, steps: u64, allow_faults: bool, allow_cut: 
                     0 => String::from("no-such-sequence"),
                     1 => base.chars().map(|c| if c.is_ascii_lowercase() { c.to_ascii_uppercase() } else { c.to_ascii_lowercase() }).collect(),
                     2 => base.chars().take(base.chars().count().saturating_sub(1)).collect(),
-                    3 => format!("{}x", base),
+                    3 => {
+                        // the name as it appears in a line of a list, a header or a .fai row: with a
+                        // line terminator, a blank, a tab, a NUL, the '>' of its header, a description
+                        let affix = *w.pick(&["x", "\n", "\r\n", "\r", " ", "\t", "\0", "\u{a0}", " desc", "\t1\t2\t3\t4", "\u{feff}", "/1", ":0-1"]);
+                        if w.chance(2, 3) { format!("{}{}", base, affix) } else if w.chance(1, 3) { format!(">{}", base) } else { format!("{}{}", affix, base) }
+                    }
                     4 => COLLIDING_NAMES[w.draw(COLLIDING_NAMES.len() as u64) as usize].to_string(),
                     5 if w.chance(1, 2) => {
                         // a long unknown name of multi-byte characters at a drawn byte alignment
